@@ -532,6 +532,18 @@ func (c16) Exec(script interface{}, c *core.Ctx) {
 		return
 	}
 	c.Log("ok rest=%d", len(got))
+	// and an unrelated search on another reader afterwards counts from that reader's start
+	if len(stream)%3 == 0 {
+		fresh := append([]byte{0x47, 0x00, 0x04, 0x10, 0x22}, validPacketFixed()...)
+		var off4 int64
+		var err4 error
+		if !c.Call("packet.Sync(fresh reader after successful search)", func() { off4, err4 = packet.Sync(bufio.NewReaderSize(bytes.NewReader(fresh), 16)) }) {
+			return
+		}
+		if err4 != nil || off4 != 5 {
+			c.Fail("offset", "offset_wrong_after_earlier_successful_search", fmt.Sprint(off4, err4), 5)
+		}
+	}
 }
 
 // readRest drains a reader, stepping over injected errors that the buffering
